@@ -46,11 +46,13 @@ closes nothing; their Start then runs); the result store latches its close signa
 a Close that comes before its Start is not lost.
 
 Nothing is hidden: the scheduler is the list of labels; time is the label
-`coolElapsed`; faults are the labels `gPanic` (panic in the service's own
-goroutine — e.g. the event provider called inline by `coordinator.run`),
+`coolElapsed`; faults are the labels `gPanic` (a panic that reaches the service's own
+goroutine — what an uncontained panic of the coordinator's inline poll used to be),
 `pPanic` (panic inside a `Process` goroutine — log / recovery / upkeep provider,
-pre- and post-processors) and `wPanic` (panic inside a worker goroutine — the
-check pipeline).
+pre- and post-processors), `wPanic` (panic inside a worker goroutine — the
+check pipeline) and `pollPanic` (panic inside the poll the coordinator's own
+goroutine performs — the transmit-event provider).  Which of them are contained
+is a parameter (`Fixes`): the current tree contains all three.
 -/
 namespace AutoVerif.C18
 
@@ -193,21 +195,43 @@ inductive Label
   | pPanic    -- a Process goroutine panics (provider `Value`, pre-processor, post-processor)
   | wFinish   -- a worker goroutine returns
   | wPanic    -- a worker goroutine panics (the check pipeline called from `wrapWorkerFunc`)
+  | pollPanic -- the poll run by the service's own goroutine panics (coordinator.run → checkEvents → GetLatestEvents)
 deriving DecidableEq, Repr
 
-/-- `fixed = true`: pkg/v3/tickers/time.go as it is now (recover inside the spawned goroutine);
-    `fixed = false`: the tree before "fix: time ticker: contain a panic raised while processing a tick". -/
-def step (fixed : Bool) (s : State) : Label → Option State
+/-- which panics the tree contains where they are raised:
+    `ticker` pkg/v3/tickers/time.go — recover inside the spawned `go Process` goroutine
+             ("fix: time ticker: contain a panic raised while processing a tick");
+    `worker` pkg/util/worker.go — `worker.Do` runs the item through `runWorkItem`, which turns a panic into an error result
+             ("fix: worker group: a panicking work item becomes an error result instead of killing the process");
+    `poll`   pkg/v3/coordinator/coordinator.go — `run` calls `safeCheckEvents`, which turns a panic into an error, logged, next poll continues
+             ("fix: coordinator: a panic while polling transmit events no longer stops event processing for good"). -/
+structure Fixes where
+  ticker : Bool
+  worker : Bool
+  poll   : Bool
+deriving DecidableEq, Repr
+
+/-- the tree as it is now -/
+def current : Fixes := { ticker := true, worker := true, poll := true }
+
+def step (fx : Fixes) (s : State) : Label → Option State
   | .core l => if s.crashed then none else (stepCore s.core l).map fun c => { s with core := c }
   | .tick => if s.crashed ∨ s.core.nRun = 0 then none else some { s with procs := s.procs + 1 }
   | .pJob => if s.crashed ∨ s.procs = 0 then none else some { s with workers := s.workers + 1 }
   | .pFinish => if s.crashed ∨ s.procs = 0 then none else some { s with procs := s.procs - 1 }
   | .pPanic =>
     if s.crashed ∨ s.procs = 0 then none
-    else if fixed then some { s with procs := s.procs - 1 }   -- recovered and logged; the ticker loop is untouched
+    else if fx.ticker then some { s with procs := s.procs - 1 }   -- recovered and logged; the ticker loop is untouched
     else some { s with crashed := true }
   | .wFinish => if s.crashed ∨ s.workers = 0 then none else some { s with workers := s.workers - 1 }
-  | .wPanic => if s.crashed ∨ s.workers = 0 then none else some { s with crashed := true }   -- no recover in the worker goroutine
+  | .wPanic =>
+    if s.crashed ∨ s.workers = 0 then none
+    else if fx.worker then some { s with workers := s.workers - 1 }   -- the item's result is an error; the submitter gets it
+    else some { s with crashed := true }                              -- no recover on the worker goroutine
+  | .pollPanic =>
+    if s.crashed ∨ s.core.nRun = 0 then none
+    else if fx.poll then some s                                      -- an error for this poll; the loop goes on to the next one
+    else (stepCore s.core .gPanic).map fun c => { s with core := c }  -- escapes into the service goroutine: `gPanic`
 
 def runC : Core → List CLabel → Option Core
   | c, [] => some c
@@ -215,10 +239,10 @@ def runC : Core → List CLabel → Option Core
     | some c' => runC c' ls
     | none => none
 
-def run (fixed : Bool) : State → List Label → Option State
+def run (fx : Fixes) : State → List Label → Option State
   | s, [] => some s
-  | s, l :: ls => match step fixed s l with
-    | some s' => run fixed s' ls
+  | s, l :: ls => match step fx s l with
+    | some s' => run fx s' ls
     | none => none
 
 /-- a freshly constructed recoverer whose `Start` has just been requested (`go svc.Start(ctx)` in startServices) -/
